@@ -24,7 +24,7 @@ EvRet == /\ E.t = "ret"
                      ELSE IF pend.op \in {"load", "get"} THEN store
                      ELSE Apply(store, pend.op, pend.a).st
          /\ pend' = NoOp
-EvCrash == /\ E.t = "crash" /\ UNCHANGED <<store, pend, bad>>
+EvCrash == /\ E.t \in {"crash", "fx"} /\ UNCHANGED <<store, pend, bad>>      \* (fx: file-system effects, for Trace_DiskStoreD)
 On(i) == pend.op \notin {"", "write", "load", "get"} /\ pend.a.id = i
 After(i) == Apply(store, pend.op, pend.a).st[i]
 GetOf(i) == LET ks == {k \in 1..Len(E.gets) : E.gets[k].id = i} IN
